@@ -1,5 +1,6 @@
 import NeumannModel.RaftWal.LemmasRot
 import NeumannModel.RaftWal.LemmasFail
+import NeumannModel.RaftWal.LemmasInstall
 /-
   C10 — Raft node restart never forgets a vote, a term or an acknowledged entry.
 
@@ -25,6 +26,11 @@ import NeumannModel.RaftWal.LemmasFail
   `snapshot[1..k] ++ old[k+1..]`, a log it never held in memory (`snapshot_install_not_atomic_witness`).
   Every obligation still in force holds for that log (the theorems below), its log-matching with the
   leader is a matter for C01.
+  Because `microG` reads the end of an obligation off the records the handler writes, the section
+  "a crash inside a snapshot install, judged by the ORDER" states the install's crash safety a second time
+  with the licence taken from the snapshot alone (`snapshot_install_cut_keeps_acknowledged_entries`), and
+  shows that the order of the install's two WAL steps is what it rests on
+  (`truncate_first_install_loses_acknowledged_entries_witness`).
 -/
 namespace Neumann.RaftWal.Props
 open Neumann.RaftWal Neumann.FramedLog
@@ -526,6 +532,118 @@ example : (execF true (initSys 0) (failActs.take 2)).node.term = 0
     ∧ (execF true (initSys 0) (failActs.take 17)).node.role = .leader
     ∧ (execF true (initSys 0) failActs).ghost.votes = [(10, 0), (3, 2)]
     ∧ (⟨3, 10, 77⟩ : LogEntry) ∈ (execF true (initSys 0) failActs).ghost.acked := by decide
+
+/-! ### a crash inside a snapshot install, judged by the ORDER and not by the records written
+
+  The theorems above release the obligation about an acknowledged entry at the WAL record that starts to
+  drop it (`microG`): right for the code as it is, where such a record is only ever written on a leader's
+  order — but blind to a handler that writes one unasked.  `install_snapshot_entries` with its two WAL
+  steps swapped (one `LogTruncate{first.index}` up front, then the entries: `installSnapshotTruncateFirst`)
+  satisfies every `microG`-based statement, because its own first record "releases" all it had
+  acknowledged, and recovers the identical log after a complete install; yet a crash between the
+  truncation record and the last re-written entry restarts the node without entries it had acknowledged
+  and that the snapshot itself REPEATS.  The statements below take the licence from the snapshot alone:
+  an acknowledged entry `a ∈ mkEntries 0 ents` (same index, term and payload in the snapshot) is dropped
+  or replaced by no part of the order, so it must be in the log recovered from EVERY prefix of what the
+  install writes.  (Entries beyond the snapshot's last index and entries the snapshot contradicts are the
+  ones the order does remove; for them the `microG` statements say until which record they stay.) -/
+
+/-- "wherever a crash cuts the records of a snapshot install, every entry the node had acknowledged before
+    and the snapshot repeats is still recovered" — for an install handler `install`, after any history
+    (handlers, periods of failing WAL appends, crashes of both kinds), any snapshot, any number `j` of
+    surviving records -/
+def InstallCutKeepsAcked (install : Node → Nat → Nat → List (Nat × Nat) → StepOut) : Prop :=
+  ∀ (id : Nat) (acts : List ActF) (li lt : Nat) (ents : List (Nat × Nat)) (j : Nat),
+    let σ := execF true (initSys id) acts
+    ∀ a ∈ σ.ghost.acked, a ∈ mkEntries 0 ents →
+      a ∈ (restart id (fromEntries (σ.dur ++ (recs (install σ.node li lt ents).micros).take j))).log
+
+/-- **Record level.** The code as it is (`LogEntryFull` per snapshot entry first, `LogTruncate{last+1}`
+    last) keeps them at every record cut. -/
+theorem snapshot_install_record_cut_keeps_acknowledged_entries :
+    InstallCutKeepsAcked (fun n li lt ents => step n (.installSnapshot li lt ents)) := by
+  intro id acts li lt ents j σ a hack ha
+  exact mem_restart_log id
+    (install_prefix_keeps σ (inv_execF_fixed (initSys id) acts (inv_init id)) li lt ents j hack ha)
+
+/-- **Byte level: a crash at ANY byte inside a snapshot install keeps every acknowledged entry the
+    snapshot repeats.**  After any history `acts` (handlers, WAL-failure periods, crashes), for any snapshot
+    `(li, lt, ents)` — accepted or refused, reaching beyond the node's log, ending below it with a local
+    suffix beyond its index, contradicting it — and any cut `n` of the WAL file that keeps the part synced
+    before the install started: recovery succeeds, and every entry the node had acknowledged before the
+    install that occurs in the snapshot is in the restarted node's log. -/
+theorem snapshot_install_cut_keeps_acknowledged_entries (h : GoodSer crc ser deser) (id : Nat) (acts : List ActF)
+    (li lt : Nat) (ents : List (Nat × Nat)) (n : Nat)
+    (hn : (fileOf crc ser (execF true (initSys id) acts).dur).length ≤ n) :
+    ∃ s cnt en, recoverBytes crc deser (crashFileF crc ser id acts (.installSnapshot li lt ents) n) = .ok s cnt en ∧
+      ∀ a ∈ (execF true (initSys id) acts).ghost.acked, a ∈ mkEntries 0 ents → a ∈ (restart id s).log := by
+  obtain ⟨j, _, ⟨en, hrec⟩, _⟩ := byte_cut crc ser deser h (execF true (initSys id) acts).dur
+    (recs (step (execF true (initSys id) acts).node (.installSnapshot li lt ents)).micros) n hn
+  exact ⟨_, _, en, hrec, fun a hack ha =>
+    snapshot_install_record_cut_keeps_acknowledged_entries id acts li lt ents j a hack ha⟩
+
+/-- The same statement for the truncate-first order is false: the follower acknowledges entries 1..5
+    (`match_index = 5`), then installs the snapshot 1..8 of the same leader; with only the install's first
+    record on disk (`LogTruncate{1}`) the restarted node has an empty log.  (The harness' directed case
+    `install.cut` / `snapshot_beyond_acked`; on the real node 725 of the install's 1172 byte cuts.) -/
+theorem truncate_first_install_loses_acknowledged_entries_witness :
+    ¬ InstallCutKeepsAcked installSnapshotTruncateFirst := by
+  intro hall
+  have := hall 0 [.ev (.appendEntries 1 1 0 0 [(1, 101), (1, 102), (1, 103), (1, 104), (1, 105)])] 8 1
+    [(1, 101), (1, 102), (1, 103), (1, 104), (1, 105), (1, 106), (1, 107), (1, 108)] 1
+    ⟨5, 1, 105⟩ (by decide) (by decide)
+  revert this
+  decide
+
+/-- the history of the witness -/
+def installDemo : List ActF := [.ev (.appendEntries 1 1 0 0 [(1, 101), (1, 102), (1, 103), (1, 104), (1, 105)])]
+def installDemoSnap : List (Nat × Nat) :=
+  [(1, 101), (1, 102), (1, 103), (1, 104), (1, 105), (1, 106), (1, 107), (1, 108)]
+
+/-- non-vacuity of the three statements: all five entries are acknowledged and repeated by the snapshot,
+    the install is accepted and writes 9 records (8 `LogEntryFull`, `LogTruncate{9}`) -/
+example : (execF true (initSys 0) installDemo).ghost.acked.length = 5
+    ∧ (∀ a ∈ (execF true (initSys 0) installDemo).ghost.acked, a ∈ mkEntries 0 installDemoSnap)
+    ∧ (step (execF true (initSys 0) installDemo).node (.installSnapshot 8 1 installDemoSnap)).reply = .snapshot true
+    ∧ (recs (step (execF true (initSys 0) installDemo).node (.installSnapshot 8 1 installDemoSnap)).micros).length = 9
+    ∧ (recs (step (execF true (initSys 0) installDemo).node (.installSnapshot 8 1 installDemoSnap)).micros).getLast?
+        = some (.logTruncate 9) := by decide
+/-- the truncate-first order after 1, 3 and 6 of its 9 records: log empty, [1, 2], [1 … 5]; complete: the
+    same log as the real order — no crash-free run tells the two apart -/
+example :
+    let σ := execF true (initSys 0) installDemo
+    let rs := recs (installSnapshotTruncateFirst σ.node 8 1 installDemoSnap).micros
+    rs.head? = some (.logTruncate 1) ∧ rs.length = 9
+    ∧ (restart 0 (fromEntries (σ.dur ++ rs.take 1))).log = []
+    ∧ (restart 0 (fromEntries (σ.dur ++ rs.take 3))).log = [⟨1, 1, 101⟩, ⟨2, 1, 102⟩]
+    ∧ (restart 0 (fromEntries (σ.dur ++ rs.take 6))).log.length = 5
+    ∧ (restart 0 (fromEntries (σ.dur ++ rs))).log
+        = (restart 0 (fromEntries (σ.dur ++ recs (step σ.node (.installSnapshot 8 1 installDemoSnap)).micros))).log
+    ∧ (installSnapshotTruncateFirst σ.node 8 1 installDemoSnap).node
+        = (step σ.node (.installSnapshot 8 1 installDemoSnap)).node := by decide
+/-- why the `microG`-based theorems cannot see it: the variant's first record releases every obligation
+    about the log, so "every entry still owed is recovered" holds trivially at that cut -/
+example :
+    let σ := execF true (initSys 0) installDemo
+    (microAllG σ.ghost ((installSnapshotTruncateFirst σ.node 8 1 installDemoSnap).micros.take 1)).acked = [] := by
+  decide
+/-- what the order does remove (and the real install removes only with its last record): a snapshot 1..3
+    over the acknowledged 1..5 keeps 4 and 5 through every proper prefix and drops them at `LogTruncate{4}`;
+    entries 1..3 — the ones the theorem speaks about — are there throughout -/
+example :
+    let σ := execF true (initSys 0) installDemo
+    let rs := recs (step σ.node (.installSnapshot 3 1 (installDemoSnap.take 3))).micros
+    rs.length = 4
+    ∧ (restart 0 (fromEntries (σ.dur ++ rs.take 3))).log.length = 5
+    ∧ (restart 0 (fromEntries (σ.dur ++ rs))).log = [⟨1, 1, 101⟩, ⟨2, 1, 102⟩, ⟨3, 1, 103⟩] := by decide
+/-- a snapshot that contradicts the log and leaves a conflicting local suffix beyond its index (entries 1, 2
+    repeated, 3 replaced, 4 and 5 beyond): 1 and 2 survive every cut, here after TV2, F1, F2, F3 -/
+example :
+    let σ := execF true (initSys 0) installDemo
+    let rs := recs (step σ.node (.installSnapshot 3 2 [(1, 101), (1, 102), (2, 203)])).micros
+    rs.length = 5
+    ∧ (restart 0 (fromEntries (σ.dur ++ rs.take 4))).log
+        = [⟨1, 1, 101⟩, ⟨2, 1, 102⟩, ⟨3, 2, 203⟩, ⟨4, 1, 104⟩, ⟨5, 1, 105⟩] := by decide
 
 /-! ### log compaction (`truncate_log`, `log_base_index`)
 
